@@ -29,8 +29,8 @@ var c03Sys = [][4]byte{{0, 0, 0, 0}, {0, 0, 0, 1}, {1, 2, 3, 4}, {0x80, 0, 0, 0}
 
 // c03Body is one body argument for NewDataMessage.
 type c03Body struct {
-	arg  string  // protocol text: "nil", "err", or item text
-	item *LItem  // nil for nil/err
+	arg  string // protocol text: "nil", "err", or item text
+	item *LItem // nil for nil/err
 	real secs2.Item
 	err  bool
 }
